@@ -12,7 +12,7 @@ prediction for the `LocatedSpan` reset after a backslash escape are the known C1
 `span_reset_after_escape`."""
 import itertools
 
-from .. import build, impl, model, report, sexp
+from .. import build, coqcheck, impl, model, report, sexp
 from ..sexp import Q
 
 MANIFEST = dict(
@@ -21,7 +21,7 @@ MANIFEST = dict(
           '= or ::=, final ;, plain or escaped dots, redundant parentheses around items), the Gallina model of Grammar::parse '
           'applied to Printer.text g lay returns g with every span equal to the position the printer gave the construct '
           '(exactly, for the lexer with the span reset repaired; for the lexer as it is, the tree up to spans and exactly the '
-          'spans the reset mechanism predicts), hence the same tree for any two layouts; and for every input text whatsoever the repaired model attaches only true nom_locate positions as spans (also to the ParseError). The model is tied to src/parse.rs by '
+          'spans the reset mechanism predicts), hence the same tree for any two layouts; and for every input text whatsoever the repaired model attaches only true nom_locate positions as spans (also to the ParseError), never panics or runs out of fuel (parse_total), and only returns trees of the shape stmt_shape / stmt_img (Props/C05b.v). The model is tied to src/parse.rs by '
           'running the extracted model and Grammar::parse on the same texts (printed grammars and a malformed stream) and '
           'comparing tree, spans and ParseError span exactly; the character classes of the terminal lexer are regenerated '
           'from parse.rs on every run; Rust is also judged directly against the printed tree and the printer positions.'),
@@ -245,7 +245,10 @@ def rand_grammar(r, depth, rich=True):
             nm = r.choice(['cmd', 'cmd', 'foo.sh', 'my-tool', 'a.b..c']) if r.random() < 0.8 else rand_lit(r)
             g.append(('call', nm, rand_tree(r, depth, False, rich)))
         elif r.random() < 0.6:
-            g.append(('def', rand_name(r).replace('@', 'a') or 'E', None, rand_tree(r, depth, False, rich)))
+            nm = rand_name(r).replace('@', 'a') or 'E'
+            if r.random() < 0.1:
+                nm = r.choice(['A@', '@b', '@', 'x y@'])     # heads that cannot be read as <name@shell>
+            g.append(('def', nm, None, rand_tree(r, depth, False, rich)))
         else:
             g.append(('def', rand_name(r).replace('@', 'a') or 'E', r.choice(['bash', 'fish', 'zsh', 'pwsh', 'no such', 'a@b']),
                       rand_tree(r, min(depth, 1), False, rich) if r.random() < 0.3 else ('cmd', rand_cmd(r))))
@@ -336,6 +339,12 @@ def replay_one(ctx, res, exe):
 def run(ctx, res):
     with build.Lock():
         exe = build.harness()
+        # the theorems about arbitrary input (totality, shape of the image) live in Props/C05b.v
+        extra = coqcheck.check_property('C05b')
+    if not extra['ok']:
+        res.violations.append(report.Violation('proof obligations of C05b (parser totality / image) no longer check',
+                                               dict(kind='proof-obligation', errors=extra['errors'][:5]), found_input=False))
+    res.extra['theorems_C05b'] = extra['theorems']
     r = ctx['rng']
     thorough = ctx['tier'] == 'thorough'
     if ctx.get('replay'):
